@@ -516,6 +516,14 @@ impl<'a, 'b> Renderer<'a, 'b> {
             D::Undefined => atom("undefined"),
             D::Void => atom("void"),
             D::Bool => atom("boolean"),
+            D::Num | D::Str if self.in_generic_def.is_none() && self.cfg.has(Feat::Typeof) && self.s.chance(1, 12) => {
+                // typeof of a constant whose initialiser is an arithmetic / concatenation expression
+                self.mark("typeof_const_binary_expr");
+                let c = self.fresh("c");
+                let init = if matches!(d, D::Num) { ["1 + 2", "2 * 3 - 1", "4 / 2 + 1"][self.s.below(3)] } else { ["\"a\" + \"b\"", "\"a\" + \"\" + \"c\""][self.s.below(2)] };
+                self.decls.push(format!("const {} = {};", c, init));
+                Txt { s: format!("typeof {}", c), p: Prec::Prefix }
+            }
             D::Num => atom("number"),
             D::Str => atom("string"),
             D::BoolLit(b) => self.literal(&D::BoolLit(*b), &b.to_string()),
@@ -551,6 +559,13 @@ impl<'a, 'b> Renderer<'a, 'b> {
             D::StrFmt(chain) => {
                 let mut acc = format!("StringFormat<{}>", ts_string(&chain[0]));
                 for f in &chain[1..] {
+                    // the base of an extension may be a named format
+                    if self.in_generic_def.is_none() && self.cfg.has(Feat::Alias) && self.s.chance(1, 2) {
+                        self.mark("format_base_behind_alias");
+                        let n = self.fresh("F");
+                        self.decls.push(format!("type {} = {};", n, acc));
+                        acc = n;
+                    }
                     acc = format!("StringFormatExtends<{}, {}>", acc, ts_string(f));
                 }
                 atom(acc)
@@ -558,6 +573,12 @@ impl<'a, 'b> Renderer<'a, 'b> {
             D::NumFmt(chain) => {
                 let mut acc = format!("NumberFormat<{}>", ts_string(&chain[0]));
                 for f in &chain[1..] {
+                    if self.in_generic_def.is_none() && self.cfg.has(Feat::Alias) && self.s.chance(1, 2) {
+                        self.mark("format_base_behind_alias");
+                        let n = self.fresh("F");
+                        self.decls.push(format!("type {} = {};", n, acc));
+                        acc = n;
+                    }
                     acc = format!("NumberFormatExtends<{}, {}>", acc, ts_string(f));
                 }
                 atom(acc)
@@ -576,6 +597,43 @@ impl<'a, 'b> Renderer<'a, 'b> {
                     2 => atom(format!("ReadonlyArray<{}>", it.s)),
                     _ => Txt { s: format!("readonly {}[]", need(it, Prec::Atom)), p: Prec::Prefix },
                 }
+            }
+            D::Tuple(prefix, None) if !prefix.is_empty() && self.in_generic_def.is_none() && prefix.iter().all(is_const_expressible) && self.take(Feat::Typeof) => {
+                self.mark("typeof_const_tuple");
+                let c = self.fresh("c");
+                let elems: Vec<String> = prefix.iter().map(const_expr).collect();
+                match self.s.below(4) {
+                    0 if elems.len() >= 2 => {
+                        // [...head, tail...]: the elements of a spread tuple constant are spliced in
+                        self.mark("typeof_const_tuple_spread");
+                        let cut = self.s.range(1, elems.len() - 1);
+                        let c0 = self.fresh("c");
+                        self.decls.push(format!("const {} = [{}] as const;", c0, elems[..cut].join(", ")));
+                        self.decls.push(format!("const {} = [...{}, {}] as const;", c, c0, elems[cut..].join(", ")));
+                    }
+                    1 if elems.len() >= 2 => {
+                        // [head..., ...tail] and a spread in the middle
+                        self.mark("typeof_const_tuple_spread");
+                        let cut = self.s.range(1, elems.len() - 1);
+                        let c0 = self.fresh("c");
+                        self.decls.push(format!("const {} = [{}] as const;", c0, elems[cut..].join(", ")));
+                        if self.s.chance(1, 2) {
+                            self.decls.push(format!("const {} = [{}, ...{}] as const;", c, elems[..cut].join(", "), c0));
+                        } else {
+                            let c1 = self.fresh("c");
+                            self.decls.push(format!("const {} = [] as const;", c1));
+                            self.decls.push(format!("const {} = [{}, ...{}, ...{}] as const;", c, elems[..cut].join(", "), c1, c0));
+                        }
+                    }
+                    2 => {
+                        self.mark("typeof_const_satisfies");
+                        self.decls.push(format!("const {} = [{}] as const satisfies readonly unknown[];", c, elems.join(", ")));
+                    }
+                    _ => {
+                        self.decls.push(format!("const {} = [{}] as const;", c, elems.join(", ")));
+                    }
+                }
+                Txt { s: format!("typeof {}", c), p: Prec::Prefix }
             }
             D::Tuple(prefix, rest) => {
                 let mut parts = vec![];
@@ -805,8 +863,8 @@ impl<'a, 'b> Renderer<'a, 'b> {
                 0 if all_optional => {
                     self.mark("partial");
                     let req: Vec<Prop> = props.iter().map(|p| Prop { optional: false, ..p.clone() }).collect();
-                    let m = self.members_detached(&req);
-                    return atom(format!("Partial<{{ {} }}>", m));
+                    let arg = self.utility_arg(&req);
+                    return atom(format!("Partial<{}>", arg));
                 }
                 1 if all_required && none_nullish => {
                     self.mark("required");
@@ -815,8 +873,8 @@ impl<'a, 'b> Renderer<'a, 'b> {
                         .enumerate()
                         .map(|(i, p)| Prop { optional: i % 2 == 0, ..p.clone() })
                         .collect();
-                    let m = self.members_detached(&opt);
-                    return atom(format!("Required<{{ {} }}>", m));
+                    let arg = self.utility_arg(&opt);
+                    return atom(format!("Required<{}>", arg));
                 }
                 2 if !props.is_empty() => {
                     self.mark("pick");
@@ -825,9 +883,9 @@ impl<'a, 'b> Renderer<'a, 'b> {
                     if self.s.chance(1, 2) {
                         bigger.push(Prop { key: "yy".into(), ty: D::Str, optional: true });
                     }
-                    let m = self.members_detached(&bigger);
-                    let keys = props.iter().map(|p| ts_string(&p.key)).collect::<Vec<_>>().join(" | ");
-                    return atom(format!("Pick<{{ {} }}, {}>", m, keys));
+                    let arg = self.utility_arg(&bigger);
+                    let keys = self.key_union(props.iter().map(|p| p.key.clone()).collect());
+                    return atom(format!("Pick<{}, {}>", arg, keys));
                 }
                 3 => {
                     self.mark("omit");
@@ -837,8 +895,9 @@ impl<'a, 'b> Renderer<'a, 'b> {
                     if two {
                         bigger.push(Prop { key: "yy".into(), ty: D::Str, optional: true });
                     }
-                    let m = self.members_detached(&bigger);
-                    return atom(format!("Omit<{{ {} }}, {}>", m, if two { "\"zz\" | \"yy\"" } else { "\"zz\"" }));
+                    let arg = self.utility_arg(&bigger);
+                    let keys = self.key_union(if two { vec!["zz".to_string(), "yy".to_string()] } else { vec!["zz".to_string()] });
+                    return atom(format!("Omit<{}, {}>", arg, keys));
                 }
                 4 if all_required && same_type => {
                     self.mark("record_literal_keys");
@@ -923,6 +982,70 @@ impl<'a, 'b> Renderer<'a, 'b> {
         atom(format!("{{ {} }}", m))
     }
 
+    /// the object-type argument of Partial / Required / Pick / Omit: written in place, as a named interface, or as the
+    /// intersection of two named interfaces with disjoint keys (which the compiler has to flatten first)
+    fn utility_arg(&mut self, props: &[Prop]) -> String {
+        match self.s.below(4) {
+            0 | 1 => {
+                let m = self.members_detached(props);
+                format!("{{ {} }}", m)
+            }
+            2 => {
+                self.mark("utility_over_interface");
+                let n = self.fresh("U");
+                let m = self.members_detached(props);
+                let doc = self.doc();
+                if self.s.chance(1, 2) {
+                    self.decls.push(format!("{}interface {} {{ {} }}", doc, n, m));
+                } else {
+                    self.decls.push(format!("{}type {} = {{ {} }};", doc, n, m));
+                }
+                n
+            }
+            _ if props.len() >= 2 => {
+                self.mark("utility_over_intersection");
+                let cut = self.s.range(1, props.len() - 1);
+                let (na, nb) = (self.fresh("U"), self.fresh("U"));
+                let a = self.members_detached(&props[..cut]);
+                let b = self.members_detached(&props[cut..]);
+                self.decls.push(format!("interface {} {{ {} }}", na, a));
+                self.decls.push(format!("type {} = {{ {} }};", nb, b));
+                format!("{} & {}", na, nb)
+            }
+            _ => {
+                let m = self.members_detached(props);
+                format!("{{ {} }}", m)
+            }
+        }
+    }
+
+    /// a union of property-name literals (the key argument of Pick / Omit): written in place, with one key behind an
+    /// alias, wholly behind an alias, or as `keyof` of a helper object
+    fn key_union(&mut self, keys: Vec<String>) -> String {
+        let plain = |ks: &[String]| ks.iter().map(|k| ts_string(k)).collect::<Vec<_>>().join(" | ");
+        match self.s.below(6) {
+            0 if keys.len() >= 2 => {
+                self.mark("keys_one_behind_alias");
+                let i = self.s.below(keys.len());
+                let n = self.fresh("K");
+                self.decls.push(format!("type {} = {};", n, ts_string(&keys[i])));
+                keys.iter().enumerate().map(|(j, k)| if j == i { n.clone() } else { ts_string(k) }).collect::<Vec<_>>().join(" | ")
+            }
+            1 => {
+                self.mark("keys_behind_alias");
+                let n = self.fresh("K");
+                self.decls.push(format!("type {} = {};", n, plain(&keys)));
+                n
+            }
+            2 => {
+                self.mark("keys_keyof_helper");
+                let body = keys.iter().map(|k| format!("{}: 0", ts_string(k))).collect::<Vec<_>>().join("; ");
+                format!("keyof {{ {} }}", body)
+            }
+            _ => plain(&keys),
+        }
+    }
+
     /// members printed outside of any generic-definition path tracking
     fn members_detached(&mut self, props: &[Prop]) -> String {
         let saved = self.in_generic_def.take();
@@ -965,8 +1088,16 @@ impl<'a, 'b> Renderer<'a, 'b> {
             if ms.iter().all(is_const_expressible) && ms.len() >= 2 && self.take(Feat::Typeof) {
                 self.mark("typeof_const_array_number");
                 let c = self.fresh("c");
-                let elems = ms.iter().map(const_expr).collect::<Vec<_>>().join(", ");
-                self.decls.push(format!("const {} = [{}] as const;", c, elems));
+                let elems: Vec<String> = ms.iter().map(const_expr).collect();
+                if self.s.chance(1, 3) {
+                    self.mark("typeof_const_tuple_spread");
+                    let cut = self.s.range(1, elems.len() - 1);
+                    let c0 = self.fresh("c");
+                    self.decls.push(format!("const {} = [{}] as const;", c0, elems[..cut].join(", ")));
+                    self.decls.push(format!("const {} = [...{}, {}] as const;", c, c0, elems[cut..].join(", ")));
+                } else {
+                    self.decls.push(format!("const {} = [{}] as const;", c, elems.join(", ")));
+                }
                 return atom(format!("(typeof {})[number]", c));
             }
             // Exclude<U | X, X> with X of a basic kind no member touches
